@@ -115,6 +115,8 @@ pub struct Entry {
     /// Extra part run once by the parent process (CLI-level checks etc.).
     pub extra: Option<fn(&ExtraArgs, &mut Stats) -> Vec<(Value, Vec<Violation>)>>,
     pub max_shards: usize,
+    /// also run one shard (enumerated part included) with the release-profile binary
+    pub release_too: bool,
 }
 
 pub struct ExtraArgs {
@@ -196,6 +198,7 @@ pub fn entry<P: Prop>(
         enumerate: enumerate::<P>,
         extra: None,
         max_shards: 16,
+        release_too: false,
     }
 }
 
@@ -264,7 +267,7 @@ pub struct Stats {
     pub skips: BTreeMap<String, u64>,
     pub known_hits: BTreeMap<String, u64>,
     pub samples: Vec<Value>,
-    pub failure: Option<Failure>,
+    pub failures: Vec<Failure>,
     pub infra_error: Option<String>,
 }
 
@@ -384,8 +387,8 @@ pub fn run_shard(
                     None => unknown.push(v),
                 }
             }
-            if !unknown.is_empty() && stats.failure.is_none() {
-                stats.failure = Some(Failure {
+            if !unknown.is_empty() && stats.failures.len() < 12 {
+                stats.failures.push(Failure {
                     choices: vec![],
                     case,
                     violations: unknown,
@@ -393,7 +396,7 @@ pub fn run_shard(
                 });
             }
         }
-        if stats.failure.is_some() {
+        if !stats.failures.is_empty() {
             return stats;
         }
     }
@@ -481,7 +484,7 @@ pub fn run_shard(
                     .into_iter()
                     .filter(|v| match_finding(&findings, e.id, v).is_none())
                     .collect();
-                stats.failure = Some(Failure {
+                stats.failures.push(Failure {
                     choices: minimal,
                     case: out.case.unwrap_or(Value::Null),
                     violations: unknown,
@@ -677,6 +680,43 @@ pub fn run_check(e: &Entry, tier: Tier, seed: u64) -> RunOutcome {
             }
         }
     }
+    if e.release_too {
+        let rel = exe
+            .parent()
+            .and_then(|p| p.parent())
+            .map(|p| p.join("release").join("rvverif"));
+        match rel {
+            Some(rel) if rel.exists() => {
+                let s = 1000usize;
+                let out = work.join(format!("shard-{s}.json"));
+                let cur = work.join(format!("current-{s}.json"));
+                let child = Command::new(&rel)
+                    .arg("shard")
+                    .arg(e.id)
+                    .arg(tier.name())
+                    .arg(seed.to_string())
+                    .arg(s.to_string())
+                    .arg(per.max(1).to_string())
+                    .arg(&out)
+                    .arg(&cur)
+                    .arg("enumerate")
+                    .stdout(Stdio::null())
+                    .stderr(Stdio::null())
+                    .spawn();
+                match child {
+                    Ok(c) => children.push((s, c, out, cur)),
+                    Err(err) => {
+                        eprintln!("cannot spawn release shard: {err}");
+                        exit = exit.max(2);
+                    }
+                }
+            }
+            _ => {
+                eprintln!("release-profile harness binary missing (run ./check setup)");
+                exit = exit.max(2);
+            }
+        }
+    }
     // extra (parent-side) part runs while shards work
     let mut extra_fails = vec![];
     if let Some(x) = e.extra {
@@ -719,7 +759,7 @@ pub fn run_check(e: &Entry, tier: Tier, seed: u64) -> RunOutcome {
             .and_then(|t| serde_json::from_str::<Stats>(&t).ok())
         {
             Some(st) if ok => {
-                if let Some(f) = st.failure.clone() {
+                for f in st.failures.clone() {
                     let p = write_replay(e.id, tier, seed, &f);
                     println!("VIOLATION property={} replay={}", e.id, p.display());
                     for v in &f.violations {
